@@ -140,7 +140,11 @@ pub fn run_prog<F: Flavour>(p: &Prog, st: Option<&mut Stats>) -> Vec<String> {
                         "compare-edges: none".to_string()
                     } else {
                         let (x, y) = (&edges_seen[pt::idx(*a, edges_seen.len())], &edges_seen[pt::idx(*b, edges_seen.len())]);
-                        format!("compare-edges {:?} {:?}: eq {} rev {:?} acc {:?}", F::tri(x), F::tri(y), F::edge_eq(x, y), F::tri(&F::e_reverse(x)), F::e_accessors(x))
+                        // also against an edge made of fresh nodes with the same keys (what a round trip or a second build gives)
+                        let (xs, xd, xe) = F::tri(x);
+                        let twin = F::mk_edge(&F::new_node(xs, NVal::plain(0)), &F::new_node(xd, NVal::plain(0)), xe);
+                        let other = F::mk_edge(&F::new_node(xs, NVal::plain(0)), &F::new_node(xd, NVal::plain(0)), xe + 1);
+                        format!("compare-edges {:?} {:?}: eq {} rev {:?} acc {:?} eq-twin {} {} eq-other-value {}", F::tri(x), F::tri(y), F::edge_eq(x, y), F::tri(&F::e_reverse(x)), F::e_accessors(x), F::edge_eq(x, &twin), F::edge_eq(&twin, x), F::edge_eq(x, &other))
                     }
                 }
                 PStep::GInsert(k) => {
